@@ -300,7 +300,9 @@ def rule_d(ctx, out):
         raise Unsupported(f"call {fname}")
 
     def run(f, conn):
-        ev = Evaluator(f.node, globals_env={"Connector": "Connector", "bool": bool, "int": int, "_connectors": {"\0module": "_connectors"}},
+        def type_of(x):
+            return bool if isinstance(x, bool) else int if isinstance(x, int) else "Connector" if isinstance(x, FakeConn) else "ExpressionReference"
+        ev = Evaluator(f.node, globals_env={"Connector": "Connector", "bool": bool, "int": int, "type": type_of, "_connectors": {"\0module": "_connectors"}},
                        call_hook=hook, obj_types=(FakeConn,))
         return ev.call(conn)
 
@@ -316,7 +318,7 @@ def rule_d(ctx, out):
         if name not in shapes:
             continue
         ar = reg[name]["arity"]
-        arities = [1, 2, 3] if ar == -1 else [ar]
+        arities = ([1, 2, 3, 4] if ctx.tier == "thorough" else [1, 2, 3]) if ar == -1 else [ar]
         for k in arities:
             for combo in itertools.product(shapes[name], repeat=k):
                 conn = mk(name, *combo)
